@@ -48,8 +48,8 @@ ASSUMPTIONS = [
   'header text is compared modulo surrounding whitespace (the statement only requires the column to be kept)',
 ]
 TECHNIQUE = 'Hypothesis grids + reference comparison, variant re-runs for root-cause attribution'
-BUDGET = {'quick': dict(examples=6000, shards=8, max_seconds=60),
-          'thorough': dict(examples=96000, shards=16, max_seconds=600)}
+BUDGET = {'quick': dict(examples=4000, shards=8, max_seconds=50),
+          'thorough': dict(examples=48000, shards=16, max_seconds=540)}
 
 DELIMS = [',', ';', '\t', '|', ':', '^', '~', '\xa7']
 QUOTES = ['"', "'", '`', '$', '\xab']
